@@ -261,7 +261,9 @@ def small_strings(maxlen, alpha="a \t\n\r#():"):
 def lexical_samples(rng, n):
     """sources that stress the scanners: numbers, operators, strings with escapes, unterminated literals."""
     frag = ["1", "12_3", "1.5", "1.", "1..2", "1..=2", "1e5", "1e", "1e+", "2E-3", "1.5e+10", "9223372036854775807",
-            "9223372036854775808", "007", "1_", "1__2.3_4", "x", "_y1", "f", "b", "fx", "if", "and", "+", "+=", "-", "->",
+            "9223372036854775808", "007", "1e308", "1e309", "1e999", "1.7976931348623157e308", "1.7976931348623158e308", "1.7976931348623159e308",
+            "%d.0" % (2 ** 1024 - 2 ** 970), "%d.0" % (2 ** 1024 - 2 ** 970 - 1), "%d.5e10" % ((2 ** 1024 - 2 ** 970) // 10 ** 10), "0.0e999999999",
+            "0e999", "1e-999", "0.%s1e400" % ("0" * 95), "0.%s1e405" % ("0" * 95), "17976931348623158079_3e289", "1e0400", "1E+308", "4.9e-324", "1_", "1__2.3_4", "x", "_y1", "f", "b", "fx", "if", "and", "+", "+=", "-", "->",
             "-=", "*", "**", "**=", "*=", "/", "//", "//=", "/=", "%", "%=", "?", "@", ",", ":", "::", ":::", "=", "==", "=>",
             "===", "!", "!=", "<", "<=", ">", ">=", ".", "..", "...", "....", "..=", "(", ")", "[", "]", "{", "}", "$", "\\",
             "~", "é", "€", "😀", '"s"', "'s'", '""', "''", '"""t"""', '"""a"b""c"""', '"""', '"a', "'a\n", '"a\\', '"a\\"b"',
